@@ -6,6 +6,7 @@ import (
 	"go/token"
 	"go/types"
 	"regexp"
+	"strconv"
 
 	"golang.org/x/tools/go/cfg"
 )
@@ -742,6 +743,60 @@ func (b *Binder) C(e ast.Expr, st Store) string {
 	return s
 }
 
+// neighbourCmp evaluates an ordering atom registered against the constant c∓1 for a comparison with c.
+func (b *Binder) neighbourCmp(be *ast.BinaryExpr, x, y string) (Tri, bool) {
+	isInt := func(e ast.Expr) bool {
+		t := b.Fn.Info().TypeOf(e)
+		if t == nil {
+			return false
+		}
+		bt, ok := t.Underlying().(*types.Basic)
+		return ok && bt.Info()&types.IsInteger != 0
+	}
+	try := func(varSide, constSide string, op token.Token) (Tri, bool) {
+		c, err := strconv.ParseInt(constSide, 10, 64)
+		if err != nil {
+			return U, false
+		}
+		type alt struct {
+			c  int64
+			op token.Token
+		}
+		var alts []alt
+		switch op {
+		case token.LSS:
+			alts = []alt{{c - 1, token.LEQ}}
+		case token.GEQ:
+			alts = []alt{{c - 1, token.GTR}}
+		case token.GTR:
+			alts = []alt{{c + 1, token.GEQ}}
+		case token.LEQ:
+			alts = []alt{{c + 1, token.LSS}}
+		}
+		for _, a := range alts {
+			k := strconv.FormatInt(a.c, 10)
+			if atom, ok := b.Cmp[varSide+"|"+k]; ok {
+				return CmpTri(a.op, b.Row[atom]), true
+			}
+		}
+		return U, false
+	}
+	if !isInt(be.X) || !isInt(be.Y) {
+		return U, false
+	}
+	if r, ok := try(x, y, be.Op); ok {
+		return r, true
+	}
+	// constant on the left: c OP X  ≡  X OP' c
+	flip := map[token.Token]token.Token{token.LSS: token.GTR, token.GTR: token.LSS, token.LEQ: token.GEQ, token.GEQ: token.LEQ}
+	if op, ok := flip[be.Op]; ok {
+		if r, ok := try(y, x, op); ok {
+			return r, true
+		}
+	}
+	return U, false
+}
+
 // ReRole is a regular-expression rewrite of canonical strings.
 type ReRole struct {
 	Re *regexp.Regexp
@@ -767,6 +822,12 @@ func (b *Binder) Leaf(e ast.Expr, st Store) Tri {
 		}
 		if a, ok := b.Cmp[y+"|"+x]; ok {
 			return CmpTri(be.Op, flipOrd(b.Row[a]))
+		}
+		// integer comparisons against a neighbouring constant: X < c ≡ X ≤ c−1, X ≥ c ≡ X > c−1,
+		// X > c ≡ X ≥ c+1, X ≤ c ≡ X < c+1 (only for integer-typed operands, e.g. len(x) < 1 ≡ len(x) == 0
+		// when the atom orders len(x) against 0 and lengths are never negative)
+		if r, ok := b.neighbourCmp(be, x, y); ok {
+			return r
 		}
 		if be.Op == token.EQL || be.Op == token.NEQ {
 			var v Tri = U
